@@ -295,3 +295,47 @@ def run_attr_search(prog, rep):
                 probs.append('no acceptance under attribute == value found')
         rule.check(not probs, q.split('::')[-1], rep.where(f), f.label(), 'accepted iff attribute value == requested value', '; '.join(sorted(set(probs))[:2]))
     return rule
+
+
+def run_identity(prog, rep):
+    """nix::Identity is the lookup key handed to the backend: it carries the caller's name / id verbatim"""
+    rule = rep.rule('R-IDENT', 'every nix::Identity constructor stores the name / id it is given verbatim (parameter, moved parameter, or the entity\'s own name()/id()); the UUID test is applied to the same string', floor=12)
+    n = 0
+    for f in sorted(prog.fns('nix::Identity::Identity'), key=lambda f: f.sig):
+        if f.body is None:
+            continue
+        pv = {('v', p['lid'], p['name']) for p in f.params}
+        for x in f.walk():      # const copies of a parameter are the parameter
+            if x.k == 'var' and x.c and x.c[0] is not None and 'const' in (x.get('type') or '') and term(unwrap(x.c[0])) in pv:
+                pv.add(('v', x.get('lid'), x.get('name')))
+
+        def verbatim(t, field):
+            if t in pv:
+                return True
+            if isinstance(t, tuple) and t[0] == 'c' and t[1] == 'std::move' and t[2] in pv:
+                return True
+            want = {'myName': 'name', 'myId': 'id'}[field]
+            if isinstance(t, tuple) and t[0] == 'm' and t[1] == want and (t[2] in pv or (isinstance(t[2], tuple) and t[2][0] == 'op' and t[2][1] == '->' and t[2][2] in pv)):
+                return True
+            return False
+        stores = []
+        for x in f.walk():
+            if x.k == 'ctorinit' and x.a.get('field') in ('myName', 'myId') and x.a.get('written'):
+                vals = [term(unwrap(y)) for y in x.c if y is not None]
+                stores.append((x.a.get('field'), vals[0] if vals else None, x))
+            elif x.k == 'call' and x.get('op') == '=' and len(x.c) == 2 and term(unwrap(x.c[0])) in (('f', 'myName'), ('f', 'myId')):
+                stores.append((term(unwrap(x.c[0]))[1], term(unwrap(x.c[1])), x))
+        if not stores:
+            raise AnalysisBroken('R-IDENT: constructor %s stores neither name nor id' % f.sig)
+        for field, val, x in stores:
+            n += 1
+            k = len([s for s in stores if s[0] == field and s[2].id < x.id])
+            rule.check(verbatim(val, field), 'Identity%s|%s|store%d' % (f.sig, field, k), rep.where(x), f.label(), '%s = %s (verbatim)' % (field, x.src(50)),
+                       '%s is set from %s, not from the given string itself: an entity whose name differs from the normalised key is looked up under another name (duplicate checks miss it, a second create re-ids it)' % (field, x.src(60)))
+        for c in f.calls(name='looksLikeUUID'):
+            n += 1
+            a = [term(unwrap(y)) for y in real_args(c) if y is not None]
+            rule.check(bool(a) and a[0] in pv, 'Identity%s|uuid-test' % f.sig, rep.where(c), f.label(), 'the UUID test is applied to the given string', 'the UUID test is applied to %s, not to the given string' % c.src(50))
+    if n < 12:
+        raise AnalysisBroken('R-IDENT: only %d stores found' % n)
+    return rule
